@@ -88,7 +88,11 @@ func mutatesTree(info *types.Info, lhs ast.Expr) bool {
 func runSrcFacts(o *Options) *Result {
 	res := NewResult()
 	fset := token.NewFileSet()
-	matches, _ := filepath.Glob("/repo/*.go")
+	repoDir := "/repo"
+	if d := os.Getenv("VH_REPO_DEV"); d != "" {
+		repoDir = d // development only: the registered checks always read /repo
+	}
+	matches, _ := filepath.Glob(repoDir + "/*.go")
 	var files []*ast.File
 	var names []string
 	for _, f := range matches {
@@ -284,101 +288,281 @@ func runSrcFacts(o *Options) *Result {
 	}
 	fmt.Fprintf(&sb, "Definition ctxvar_fields : list string := %s.\n", gList(vf))
 
-	// (e) what Ctx.Reset touches, and which slot fields every block of a setter assigns.
-	// ctxPath renders ctx.F, ctx.F[i], ctx.F[i].G as "F", "F[]", "F[].G" (any receiver name).
-	var ctxPath func(e ast.Expr, recv string) (string, string, bool)
-	ctxPath = func(e ast.Expr, recv string) (path string, idx string, ok bool) {
-		switch x := e.(type) {
-		case *ast.SelectorExpr:
-			if id, isID := x.X.(*ast.Ident); isID && id.Name == recv {
-				return x.Sel.Name, "", true
-			}
-			if p, i, ok := ctxPath(x.X, recv); ok {
-				return p + "." + x.Sel.Name, i, true
-			}
-		case *ast.IndexExpr:
-			if p, _, ok := ctxPath(x.X, recv); ok {
-				var ib strings.Builder
-				_ = printer.Fprint(&ib, fset, x.Index)
-				return p + "[]", ib.String(), true
-			}
-		case *ast.SliceExpr:
-			return ctxPath(x.X, recv)
-		}
-		return "", "", false
-	}
-	var resetTouched []string
-	type slotBlock struct {
-		fn, idx string
-		fields  map[string]bool
-	}
-	var blocks []*slotBlock
-	setters := map[string]bool{"Set": true, "SetBytes": true, "SetCounter": true}
+	// (e) what Ctx.Reset touches (through the helpers it calls and through local pointers into the
+	// stores), which length field governs which store, and which slot fields every block of a
+	// setter assigns.  Paths: ctx.F, ctx.F[i], ctx.F[i].G are "F", "F[]", "F[].G" (any receiver name).
+	type aliasInfo struct{ path, idx string }
+	ctxMethods := map[string]*ast.FuncDecl{}
 	for _, af := range files {
 		for _, d := range af.Decls {
 			fd, ok := d.(*ast.FuncDecl)
 			if !ok || fd.Recv == nil || len(fd.Recv.List) == 0 || fd.Body == nil || len(fd.Recv.List[0].Names) == 0 {
 				continue
 			}
-			if namedOf(info.TypeOf(fd.Recv.List[0].Type)) != "Ctx" {
-				continue
-			}
-			recv := fd.Recv.List[0].Names[0].Name
-			if fd.Name.Name == "Reset" {
-				seen := map[string]bool{}
-				add := func(p string) {
-					if !seen[p] {
-						seen[p] = true
-						resetTouched = append(resetTouched, fmt.Sprintf("%q", p))
-					}
-				}
-				ast.Inspect(fd.Body, func(n ast.Node) bool {
-					switch x := n.(type) {
-					case *ast.AssignStmt:
-						for _, l := range x.Lhs {
-							if p, _, ok := ctxPath(l, recv); ok {
-								add(p)
-							}
-						}
-					case *ast.CallExpr:
-						if se, ok := x.Fun.(*ast.SelectorExpr); ok && se.Sel.Name == "Reset" {
-							if p, _, ok := ctxPath(se.X, recv); ok {
-								add(p + ".Reset()")
-							}
-						}
-					}
-					return true
-				})
-			}
-			if setters[fd.Name.Name] {
-				// every statement list that assigns slot fields directly is one block
-				ast.Inspect(fd.Body, func(n ast.Node) bool {
-					bs, ok := n.(*ast.BlockStmt)
-					if !ok {
-						return true
-					}
-					byIdx := map[string]*slotBlock{}
-					for _, st := range bs.List {
-						as, ok := st.(*ast.AssignStmt)
-						if !ok {
-							continue
-						}
-						for _, l := range as.Lhs {
-							if p, idx, ok := ctxPath(l, recv); ok && strings.HasPrefix(p, "vars[].") {
-								b := byIdx[idx]
-								if b == nil {
-									b = &slotBlock{fn: fd.Name.Name, idx: idx, fields: map[string]bool{}}
-									byIdx[idx] = b
-									blocks = append(blocks, b)
-								}
-								b.fields[strings.TrimPrefix(p, "vars[].")] = true
-							}
-						}
-					}
-					return true
-				})
+			if namedOf(info.TypeOf(fd.Recv.List[0].Type)) == "Ctx" {
+				ctxMethods[fd.Name.Name] = fd
 			}
 		}
+	}
+	// element type of every slice field of Ctx (for pointers handed out by helper methods)
+	elemStore := map[string]string{}
+	for _, af := range files {
+		for _, d := range af.Decls {
+			gd, ok := d.(*ast.GenDecl)
+			if !ok {
+				continue
+			}
+			for _, sp := range gd.Specs {
+				ts, ok := sp.(*ast.TypeSpec)
+				if !ok || ts.Name.Name != "Ctx" {
+					continue
+				}
+				if st, ok := ts.Type.(*ast.StructType); ok {
+					for _, f := range st.Fields.List {
+						if at, ok := f.Type.(*ast.ArrayType); ok && at.Len == nil {
+							if en := namedOf(info.TypeOf(at.Elt)); en != "" {
+								for _, n := range f.Names {
+									elemStore[en] = n.Name
+								}
+							}
+						}
+					}
+				}
+			}
+		}
+	}
+	exprText := func(e ast.Expr) string {
+		var ib strings.Builder
+		_ = printer.Fprint(&ib, fset, e)
+		return ib.String()
+	}
+	var resolve func(e ast.Expr, recv string, al map[types.Object]aliasInfo) (string, string, bool)
+	resolve = func(e ast.Expr, recv string, al map[types.Object]aliasInfo) (path string, idx string, ok bool) {
+		switch x := e.(type) {
+		case *ast.Ident:
+			if a, has := al[info.ObjectOf(x)]; has {
+				return a.path, a.idx, true
+			}
+		case *ast.SelectorExpr:
+			if id, isID := x.X.(*ast.Ident); isID && id.Name == recv {
+				if _, shadow := al[info.ObjectOf(id)]; !shadow {
+					return x.Sel.Name, "", true
+				}
+			}
+			if p, i, ok := resolve(x.X, recv, al); ok {
+				return p + "." + x.Sel.Name, i, true
+			}
+		case *ast.IndexExpr:
+			if p, _, ok := resolve(x.X, recv, al); ok {
+				return p + "[]", exprText(x.Index), true
+			}
+		case *ast.SliceExpr:
+			return resolve(x.X, recv, al)
+		case *ast.ParenExpr:
+			return resolve(x.X, recv, al)
+		case *ast.StarExpr:
+			return resolve(x.X, recv, al)
+		case *ast.UnaryExpr:
+			if x.Op == token.AND {
+				return resolve(x.X, recv, al)
+			}
+		}
+		return "", "", false
+	}
+	// noteAlias records v := &ctx.F[i] (or v := ctx.helper(..) returning a pointer to an element type)
+	noteAlias := func(as *ast.AssignStmt, recv string, al map[types.Object]aliasInfo) {
+		if len(as.Lhs) != len(as.Rhs) {
+			return
+		}
+		for k, l := range as.Lhs {
+			id, ok := l.(*ast.Ident)
+			if !ok || id.Name == "_" {
+				continue
+			}
+			obj := info.ObjectOf(id)
+			if obj == nil {
+				continue
+			}
+			switch r := as.Rhs[k].(type) {
+			case *ast.UnaryExpr:
+				if r.Op == token.AND {
+					if p, i, ok := resolve(r.X, recv, al); ok {
+						al[obj] = aliasInfo{p, i}
+					}
+				}
+			case *ast.CallExpr:
+				if se, ok := r.Fun.(*ast.SelectorExpr); ok {
+					if rid, ok := se.X.(*ast.Ident); ok && rid.Name == recv {
+						if pt, ok := info.TypeOf(r).(*types.Pointer); ok {
+							if st, has := elemStore[namedOf(pt.Elem())]; has {
+								al[obj] = aliasInfo{st + "[]", "i"} // a pointer to an existing element
+							}
+						}
+					}
+				}
+			}
+		}
+	}
+	var resetTouched []string
+	seenTouched := map[string]bool{}
+	addTouched := func(p string) {
+		if !seenTouched[p] {
+			seenTouched[p] = true
+			resetTouched = append(resetTouched, fmt.Sprintf("%q", p))
+		}
+	}
+	visited := map[string]bool{}
+	var walkReset func(fd *ast.FuncDecl)
+	walkReset = func(fd *ast.FuncDecl) {
+		if visited[fd.Name.Name] {
+			return
+		}
+		visited[fd.Name.Name] = true
+		recv := fd.Recv.List[0].Names[0].Name
+		al := map[types.Object]aliasInfo{}
+		ast.Inspect(fd.Body, func(n ast.Node) bool {
+			switch x := n.(type) {
+			case *ast.AssignStmt:
+				noteAlias(x, recv, al)
+				for _, l := range x.Lhs {
+					if p, _, ok := resolve(l, recv, al); ok {
+						addTouched(p)
+					}
+				}
+			case *ast.IncDecStmt:
+				if p, _, ok := resolve(x.X, recv, al); ok {
+					addTouched(p)
+				}
+			case *ast.CallExpr:
+				if se, ok := x.Fun.(*ast.SelectorExpr); ok {
+					if se.Sel.Name == "Reset" {
+						if p, _, ok := resolve(se.X, recv, al); ok {
+							addTouched(p + ".Reset()")
+						}
+					}
+					if rid, ok := se.X.(*ast.Ident); ok && rid.Name == recv {
+						if callee, has := ctxMethods[se.Sel.Name]; has {
+							walkReset(callee)
+						}
+					}
+				}
+			}
+			return true
+		})
+	}
+	if fd, ok := ctxMethods["Reset"]; ok {
+		walkReset(fd)
+	}
+	// which integer field is the logical length of which store: ctx.S[ctx.L], ctx.S[:ctx.L], or a
+	// loop bounded by ctx.L whose body indexes ctx.S by the loop variable
+	var storeLen []string
+	seenSL := map[string]bool{}
+	addSL := func(st, ln string) {
+		k := st + "/" + ln
+		if !seenSL[k] && st != "" && ln != "" {
+			seenSL[k] = true
+			storeLen = append(storeLen, fmt.Sprintf("(%q, %q)", st, ln))
+		}
+	}
+	mnames := make([]string, 0, len(ctxMethods))
+	for n := range ctxMethods {
+		mnames = append(mnames, n)
+	}
+	sort.Strings(mnames)
+	for _, mn := range mnames {
+		fd := ctxMethods[mn]
+		recv := fd.Recv.List[0].Names[0].Name
+		field := func(e ast.Expr) string {
+			if se, ok := e.(*ast.SelectorExpr); ok {
+				if id, ok := se.X.(*ast.Ident); ok && id.Name == recv {
+					return se.Sel.Name
+				}
+			}
+			return ""
+		}
+		ast.Inspect(fd.Body, func(n ast.Node) bool {
+			switch x := n.(type) {
+			case *ast.IndexExpr:
+				addSL(field(x.X), field(x.Index))
+			case *ast.SliceExpr:
+				if x.High != nil {
+					addSL(field(x.X), field(x.High))
+				}
+			case *ast.ForStmt:
+				be, ok := x.Cond.(*ast.BinaryExpr)
+				if !ok || x.Body == nil {
+					return true
+				}
+				iv, ok := be.X.(*ast.Ident)
+				ln := field(be.Y)
+				if !ok || ln == "" {
+					return true
+				}
+				ast.Inspect(x.Body, func(m ast.Node) bool {
+					if ie, ok := m.(*ast.IndexExpr); ok {
+						if id, ok := ie.Index.(*ast.Ident); ok && id.Name == iv.Name {
+							addSL(field(ie.X), ln)
+						}
+					}
+					return true
+				})
+			}
+			return true
+		})
+	}
+	fmt.Fprintf(&sb, "Definition store_len : list (string * string) := %s.\n", gList(storeLen))
+	type slotBlock struct {
+		fn, idx string
+		fields  map[string]bool
+	}
+	var blocks []*slotBlock
+	for _, sn := range []string{"Set", "SetBytes", "SetCounter"} {
+		fd, ok := ctxMethods[sn]
+		if !ok {
+			continue
+		}
+		recv := fd.Recv.List[0].Names[0].Name
+		al := map[types.Object]aliasInfo{}
+		// aliases first (they may be declared in the header of an if or for statement)
+		ast.Inspect(fd.Body, func(n ast.Node) bool {
+			if as, ok := n.(*ast.AssignStmt); ok {
+				noteAlias(as, recv, al)
+			}
+			return true
+		})
+		// every statement list that assigns slot fields directly is one block
+		ast.Inspect(fd.Body, func(n ast.Node) bool {
+			bs, ok := n.(*ast.BlockStmt)
+			if !ok {
+				return true
+			}
+			byIdx := map[string]*slotBlock{}
+			for _, st := range bs.List {
+				as, ok := st.(*ast.AssignStmt)
+				if !ok {
+					continue
+				}
+				for _, l := range as.Lhs {
+					if p, idx, ok := resolve(l, recv, al); ok && strings.HasPrefix(p, "vars[].") {
+						// normal forms: the logical length of the variable store is "ctx.ln" (whatever
+						// receiver and field are called), any plain loop variable is "i"
+						if strings.HasPrefix(idx, recv+".") && seenSL["vars/"+strings.TrimPrefix(idx, recv+".")] {
+							idx = "ctx.ln"
+						} else if token.IsIdentifier(idx) {
+							idx = "i"
+						}
+						b := byIdx[idx]
+						if b == nil {
+							b = &slotBlock{fn: sn, idx: idx, fields: map[string]bool{}}
+							byIdx[idx] = b
+							blocks = append(blocks, b)
+						}
+						b.fields[strings.TrimPrefix(p, "vars[].")] = true
+					}
+				}
+			}
+			return true
+		})
 	}
 	fmt.Fprintf(&sb, "Definition reset_touched : list string := %s.\n", gList(resetTouched))
 	var bl []string
